@@ -608,7 +608,8 @@ class IH5Record(IH5Group):
         Returns new resulting container.
         """
         self._expect_open()
-        if self._has_writable:
+        # NOTE: an uncommitted container can also be opened read-only (mode 'r')
+        if self._has_writable or self._ublock(-1).hdf5_hashsum is None:
             raise ValueError("Cannot merge, please commit or discard your changes!")
 
         with type(self)(target, "x") as ds:
